@@ -416,3 +416,101 @@ M('C02-n-keep-test-as-continue', 'C02', F_LUA,
   "                         new_name not in self._names_to_keep) and\n"
   "                        new_name not in MinifyNameFactory.PRESERVED_NAMES):\n"
   "                    break\n", kind='neutral', note='extra conjunct')
+
+# ---------------------------------------------------------------- C14 ----
+M('C14-store-after-recursion', 'C14', F_BUILD,
+  "            package_lua[require_path] = reqd_lua\n"
+  "            _evaluate_require(reqd_lua, reqd_filepath,\n"
+  "                              package_lua, lua_path=lua_path)\n",
+  "            _evaluate_require(reqd_lua, reqd_filepath,\n"
+  "                              package_lua, lua_path=lua_path)\n"
+  "            package_lua[require_path] = reqd_lua\n", expect='R-C14-once')
+M('C14-no-membership-guard', 'C14', F_BUILD,
+  "        if require_path not in package_lua:\n            reqd_filepath",
+  "        if True:\n            reqd_filepath", expect='R-C14-once')
+M('C14-revert-fix19-visitor', 'C14', F_BUILD,
+  "        else:\n"
+  "            # Not a require() call itself, but it may contain some.\n"
+  "            for t in lua._default_node_handler(self, node):\n"
+  "                yield t\n", "", expect='R-C14-visitor')
+M('C14-revert-fix18-splice', 'C14', F_BUILD,
+  "        if not package_header[-1].endswith(b'\\n'):\n"
+  "            package_header.append(b'\\n')\n", "", expect='R-C14-splice')
+M('C14-sync-reparse-after-edit', 'C14', F_BUILD,
+  "            package_lua[require_path] = reqd_lua\n",
+  "            reqd_lua.root.stats[:] = [s for s in reqd_lua.root.stats\n"
+  "                                      if not isinstance(s, parser.StatReturn)]\n"
+  "            reqd_lua.reparse(writer_cls=lua.LuaASTEchoWriter)\n"
+  "            package_lua[require_path] = reqd_lua\n", expect='R-C14-sync')
+M('C14-strip-draw-only', 'C14', F_BUILD,
+  "GAME_LOOP_FUNCTION_NAMES = (b'_init', b'_update', b'_update60', b'_draw')",
+  "GAME_LOOP_FUNCTION_NAMES = (b'_init', b'_update', b'_draw')",
+  expect='R-C14-strip')
+M('C14-strip-range-off-by-one', 'C14', F_BUILD,
+  "                        if not any(s.start_pos <= i < s.end_pos\n",
+  "                        if not any(s.start_pos <= i <= s.end_pos\n",
+  expect='R-C14-strip')
+M('C14-strip-ignores-option', 'C14', F_BUILD,
+  "            if not use_game_loop:\n", "            if True:\n",
+  expect='R-C14-strip')
+M('C14-not-found-is-silent', 'C14', F_BUILD,
+  "            if reqd_filepath is None:\n"
+  "                raise LuaBuildError(\n"
+  "                    'require() file {} not found; used load path {}'.format(require_path_str, lua_path),  # noqa: E501\n"
+  "                    require_token)\n",
+  "            if reqd_filepath is None:\n                continue\n",
+  expect='R-C14-errors')
+M('C14-error-helper-returns', 'C14', F_BUILD,
+  "        raise LuaBuildError(msg, self._tokens[node.start_pos])\n",
+  "        util.error(msg)\n", expect='R-C14-errors')
+M('C14-n-yield-from', 'C14', F_BUILD,
+  "            for t in lua._default_node_handler(self, node):\n"
+  "                yield t\n",
+  "            yield from lua._default_node_handler(self, node)\n",
+  kind='neutral')
+
+# ---------------------------------------------------------------- C20 ----
+M('C20-tab-off-by-one', 'C20', F_P8,
+  "        elif inc_tab is None or inc_tab == cur_tab:\n",
+  "        elif inc_tab is None or inc_tab == cur_tab + 1:\n", expect='R-C20-tabs')
+M('C20-nested-includes', 'C20', F_P8,
+  "                    fh, filename=inc_full_path, do_includes=False)\n",
+  "                    fh, filename=inc_full_path, do_includes=True)\n",
+  expect='R-C20-kinds')
+M('C20-yield-include-line', 'C20', F_P8,
+  "        # (Only assert filename if there's an #include.)\n",
+  "        yield b'-- ' + line\n", expect='R-C20-identity')
+M('C20-swap-formatters', 'C20', F_P8,
+  "                P8Formatter if inc_extension == '.p8'\n                else P8PNGFormatter)",
+  "                P8PNGFormatter if inc_extension == '.p8'\n                else P8Formatter)",
+  expect='R-C20-kinds')
+M('C20-revert-fix17-lua', 'C20', F_P8,
+  "                for line in fh:\n"
+  "                    if not line.endswith(b'\\n'):\n"
+  "                        line += b'\\n'\n"
+  "                    yield line\n",
+  "                for line in fh:\n                    yield line\n",
+  expect='R-C14-splice')
+M('C20-missing-target-skipped', 'C20', F_P8,
+  "        if not os.path.isfile(inc_full_path):\n            raise P8IncludeNotFound()\n",
+  "        if not os.path.isfile(inc_full_path):\n            continue\n",
+  expect='R-C20-missing')
+M('C20-separator-always', 'C20', F_P8,
+  "            if inc_tab is None:\n"
+  "                # Preserve tab cut lines if we're not actually selecting a tab.\n"
+  "                yield line\n",
+  "            yield line\n", expect='R-C20-tabs')
+M('C20-counter-starts-1', 'C20', F_P8,
+  "    cur_tab = 0\n", "    cur_tab = 1\n", expect='R-C20-tabs')
+M('C20-tab-ignored-for-png', 'C20', F_P8,
+  "                for line in lines_for_tab(inc_game.lua.to_lines(), inc_tab):\n",
+  "                for line in lines_for_tab(inc_game.lua.to_lines(), None):\n",
+  expect='R-C20-kinds')
+M('C20-lua-skips-comments', 'C20', F_P8,
+  "                for line in fh:\n"
+  "                    if not line.endswith(b'\\n'):\n",
+  "                for line in fh:\n"
+  "                    if line.startswith(b'--'):\n"
+  "                        continue\n"
+  "                    if not line.endswith(b'\\n'):\n",
+  expect='R-C20-kinds')
